@@ -23,6 +23,7 @@ macro_rules! int_case {
         if win != wincode::serialize(&n).unwrap() { err = Some("wincode encoding differs from the primitive's".into()); }
         if wincode::deserialize::<$P>(&win).ok() != Some(pod) { err = Some("wincode round trip failed".into()); }
         if pod_from_bytes::<$P>(&bytes).ok() != Some(&pod) { err = Some("byte cast of own bytes failed".into()); }
+        if spl_pod::bytemuck::pod_get_packed_len::<$P>() != bytes.len() { err = Some("pod_get_packed_len differs from the width".into()); }
         (
             format!("bytes={} back={} borsh={} json={} wincode={}", hex(&bytes), back,
                 borsh_s.as_ref().map_or("na".to_string(), |b| hex(b)), json, hex(&win)),
@@ -33,7 +34,14 @@ macro_rules! int_case {
 }
 
 fn no_borsh<T>(_: &T) -> Option<Vec<u8>> { None }
-fn yes_borsh<T: borsh::BorshSerialize>(t: &T) -> Option<Vec<u8>> { Some(borsh::to_vec(t).unwrap()) }
+fn yes_borsh<T: borsh::BorshSerialize + borsh::BorshDeserialize + PartialEq>(t: &T) -> Option<Vec<u8>> {
+    let b = borsh::to_vec(t).unwrap();
+    // Borsh must read back what it wrote (and nothing else: trailing bytes are an error)
+    if borsh::from_slice::<T>(&b).ok().as_ref() != Some(t) { return Some(vec![0xde, 0xad]); }
+    let mut longer = b.clone(); longer.push(0);
+    if borsh::from_slice::<T>(&longer).is_ok() { return Some(vec![0xde, 0xad]); }
+    Some(b)
+}
 
 fn width(ty: &str) -> usize {
     match ty { "u16" | "i16" => 2, "u32" => 4, "u64" | "i64" => 8, "u128" => 16, "bool" => 1, _ => panic!("type {ty}") }
@@ -138,9 +146,16 @@ fn run_c13(t: &[&str], out: &mut RunOut, line: &str) {
             if json != serde_json::to_string(&read).unwrap() { err = Some("serde encoding differs from bool's".into()); }
             if serde_json::from_str::<PodBool>(&json).ok() != Some(w) { err = Some("serde round trip".into()); }
             if win != wincode::serialize(&read).unwrap() { err = Some("wincode encoding differs from bool's".into()); }
+            if wincode::deserialize::<PodBool>(&win).ok() != Some(w) { err = Some("wincode round trip".into()); }
+            // the by-reference conversions must agree with the by-value ones
+            let read_ref: bool = bool::from(&p);
+            let w_ref = PodBool::from(&read);
+            if read_ref != read { err = Some("by-reference PodBool -> bool disagrees with the by-value conversion".into()); }
+            if w_ref != w || PodBool::from(read) != w { err = Some("From<&bool> / From<bool> disagree with from_bool".into()); }
             nontrivial = x > 1;
             out.stats.bump("bool");
-            (format!("read={} write={} json={} wincode={}", read as u8, w.0, json, hex(&win)), err)
+            (format!("read={} write={} json={} wincode={}{}", read as u8, w.0, json, hex(&win),
+                if read_ref != read { format!(" byref={}", read_ref as u8) } else { String::new() }), err)
         }
         "cast" => {
             let b = unhex(t[2]);
@@ -280,6 +295,9 @@ fn run_c14(t: &[&str], out: &mut RunOut, line: &str) {
             if let Some(g) = got { if g != a { err = Some("get() returned a different value".into()); } }
             if matches!(cgot, COption::None) != is_none_val { err = Some("COption conversion disagrees".into()); }
             if po.as_ref().copied() != got || po.copied() != got || po.cloned() != got { err = Some("as_ref/copied/cloned disagree with get".into()); }
+            { let mut pm = po; if pm.as_mut().map(|x| *x) != got { err = Some("as_mut disagrees with get".into()); } }
+            if Option::<Address>::from(po) != got { err = Some("From<PodOption> for Option disagrees with get".into()); }
+            if a.is_some() == is_none_val || a.is_none() != is_none_val { err = Some("Nullable::is_some / is_none disagree with the none value".into()); }
             if mem != raw.to_vec() { err = Some("memory encoding is not the wrapped value's".into()); }
             if borsh_b != borsh::to_vec(&a).unwrap() { err = Some("borsh encoding is not the wrapped value's".into()); }
             if is_none_val && json != "null" { err = Some("serde does not write none as null".into()); }
